@@ -311,10 +311,13 @@ class Channel(object):
         else:
             if (q.durable, q.exclusive, q.auto_delete, q.arguments or None) != (durable, exclusive, auto_delete, arguments or None):
                 return self._closed_by_broker(406, "PRECONDITION_FAILED - inequivalent arg for queue '%s'" % queue)
+        self.last_declared_queue = queue
         self._later(callback, Frame(_QueueDeclareOk(queue, len(q.messages), len(q.consumers))))
 
     def queue_bind(self, queue, exchange, routing_key=None, arguments=None, callback=None):
         self._check_open()
+        if queue == "" and getattr(self, "last_declared_queue", None):
+            queue = self.last_declared_queue        # AMQP 0.9.1: empty name = the queue last declared on this channel
         self.broker.post(self.broker.log(self.connection, "queue_bind", queue=queue, exchange=exchange, key=routing_key, arguments=arguments))
         if queue not in self.broker.queues:
             return self._closed_by_broker(404, "NOT_FOUND - no queue '%s'" % queue)
